@@ -233,12 +233,18 @@ class TimeLimitExceededError(Exception):
     pass
 
 
+def _new_tid_generator():
+    # Clients keep the ids of their tasks across restarts of the worker pool,
+    # so a new pool must not hand out ids that an earlier pool already used.
+    return itertools.count(time.time_ns())
+
+
 @attrs.define
 class Scheduler:
     working_dir: Path = attrs.field(converter=Path)
     max_cores: int = attrs.field(default=multiprocessing.cpu_count())
 
-    tid_generator: Generator = attrs.field(factory=itertools.count)
+    tid_generator: Generator = attrs.field(factory=_new_tid_generator)
     events: asyncio.Queue = attrs.field(factory=asyncio.Queue)
     task_states: dict = attrs.field(factory=dict)
     tasks: dict = attrs.field(factory=dict)
